@@ -358,8 +358,12 @@ class OrderedRingBuffer(Generic[FloatArray]):
 
         # Ensure that the window is within the bounds of the buffer
         assert self.oldest_timestamp is not None and self.newest_timestamp is not None
-        start = max(start, self.oldest_timestamp)
-        end = min(end, self.newest_timestamp + self._sampling_period)
+        # Work on the slots the (possibly unaligned) timestamps fall into, so that the
+        # emptiness test below and the gap filling use the same time grid as the buffer.
+        start = self.normalize_timestamp(max(start, self.oldest_timestamp))
+        end = self.normalize_timestamp(
+            min(end, self.newest_timestamp + self._sampling_period)
+        )
 
         if start >= end:
             return np.array([]) if isinstance(self._buffer, np.ndarray) else []
